@@ -121,8 +121,15 @@ def materialise(case):
     forced = set()  # cuts that are always followed by a pause longer than the clients' read timeout
     nonascii = [i for i, x in enumerate(items) if any(ch >= 0x80 for ch in x[1])]
     quiet = set()  # cuts followed by a long silence (seconds, not milliseconds)
+    longquiet = set()
     for c in case["cuts"]:
-        if isinstance(c, (list, tuple)) and c[0] == "q":
+        if isinstance(c, (list, tuple)) and c[0] == "Q":
+            # a long silence (14 s) on a healthy connection before line i
+            a, n = offs[c[1] % len(offs)]
+            if a > 0:
+                cutset.add(a)
+                longquiet.add(a)
+        elif isinstance(c, (list, tuple)) and c[0] == "q":
             # the feed falls silent for 2.6 s before line i starts
             a, n = offs[c[1] % len(offs)]
             if not quiet and a > 0:  # (one silence per case)
@@ -154,6 +161,9 @@ def materialise(case):
         d = DELAYS[case["delays"][i % len(case["delays"])] % len(DELAYS)] if case["delays"] else 0.0
         if bounds[i + 1] in forced:
             d = 0.15
+        if bounds[i + 1] in longquiet:
+            segs.append((stream[bounds[i]:bounds[i + 1]], 14.0))
+            continue
         if bounds[i + 1] in quiet:
             segs.append((stream[bounds[i]:bounds[i + 1]], 2.6))
             continue
@@ -524,6 +534,8 @@ def main():
         # every line of the pool three times in a row, and once in upper-case digits (both clients)
         + [{"client": cl, "items": [["gg", k] for k in range(h * 36, h * 36 + 36)], "cuts": [], "delays": [0], "drop": None, "limit": False} for cl in ("1090", "radar") for h in (0, 1)]
         + [{"client": cl, "items": [["gU", k] for k in range(72)], "cuts": [], "delays": [0], "drop": None, "limit": False} for cl in ("1090", "radar")]
+        # 14 s without a byte on a connection that stays up, then more lines (both clients)
+        + [{"client": cl, "items": [["g", 3], ["g", 7], ["g", 11], ["g", 12], ["g", 13], ["g", 14]], "cuts": [["Q", 4]], "delays": [0], "drop": None, "limit": False} for cl in ("1090", "radar")]
         # a line cut in two (pause longer than the read timeout) right after the feed was silent for 2.6 s
         + [{"client": cl, "items": [["g", 3], ["g", 7], ["g", 11], ["g", 12], ["g", 13]], "cuts": [["q", 2], ["s", 2, w], ["s", 4, 1]], "delays": [5], "drop": None, "limit": False} for cl in ("1090", "radar") for w in (1, 2)]
         # ... and the server goes away completely (attempts refused) for 1, 4 and 9 seconds
